@@ -32,6 +32,17 @@ def main : IO Unit := do
   hout.flush
 ''')
 txt = '\n'.join(out)
+# library root: every module under MW/ (so that `lake build` checks all proofs)
+mods = []
+for d, _, fs in os.walk(os.path.join(root, 'MW')):
+    for f in fs:
+        if f.endswith('.lean'):
+            rel = os.path.relpath(os.path.join(d, f), root)[:-5].replace(os.sep, '.')
+            mods.append(rel)
+rt = ''.join('import %s\n' % m for m in sorted(mods))
+rp = os.path.join(root, 'MW.lean')
+if not os.path.exists(rp) or open(rp).read() != rt:
+    open(rp, 'w').write(rt)
 p = os.path.join(root, 'Driver.lean')
 if not os.path.exists(p) or open(p).read() != txt:
     open(p, 'w').write(txt)
